@@ -29,6 +29,50 @@ def run_extra(ck: Check, repo: Repo) -> None:
     ck.rule("C01.14", "the defaults EvolvableNetwork.__init__ derives for its encoder resolve identically on the constructor description that clone() uses "
                       "(a clone is built like its parent) — obligations of C04.8")
     description_idempotent(ck, repo, "C01.14")
+    _copy_is_last(ck, repo)
+
+
+# ------------------------------------------------------------------------------------------------ C01.15
+def _copy_is_last(ck: Check, repo: Repo) -> None:
+    """clone(): the attribute copy is the last thing that writes the copy.  The hooks clone() runs on the new agent (mutation_hook -> e.g. the
+    bandits' init_params, which resets sigma_inv / theta_0), the optimizer re-creation and wrap / recompile all write attributes that
+    copy_attributes then overwrites with the parent's values; run after it they would overwrite the parent's values instead."""
+    from ..cfg import CFG
+    ck.rule("C01.15", "clone() copies the parent's attributes after the hooks ran: no method that executes the registered hooks is called on the new agent after "
+                      "copy_attributes, so state a hook initialises (bandit sigma_inv / theta_0) ends up with the parent's values")
+    fn = repo.fn("agilerl.algorithms.core.base", "EvolvableAlgorithm.clone")
+    cfg = CFG(fn.node)
+    copies = [c for c in calls_in(fn.node) if last_attr(c) == "copy_attributes" and cfg.node_of(c) is not None]
+    ck.floor("C01.15", len(copies), 1, "copy_attributes call", fn=fn)
+    if not copies:
+        return
+    # the new agent: what copy_attributes receives as second argument / what clone() returns
+    rets = [n for n in cfg.live_nodes() if n.kind == "stmt" and isinstance(n.ast, ast.Return) and isinstance(n.ast.value, ast.Name)]
+    new_names = {n.ast.value.id for n in rets} | {c.args[1].id for c in copies if len(c.args) > 1 and isinstance(c.args[1], ast.Name)}
+    # methods of the algorithm base class that execute the registered hooks: mutation_hook itself and whatever calls it / walks registry.hooks
+    base = repo.cls("agilerl.algorithms.core.base", "EvolvableAlgorithm")
+    runs_hooks: Set[str] = set()
+    for name, m in base.methods.items():
+        if name == "mutation_hook" or any(last_attr(c2) == "mutation_hook" for c2 in calls_in(m.node)) \
+                or any(isinstance(x, ast.Attribute) and x.attr == "hooks" and isinstance(x.value, ast.Attribute) and x.value.attr == "registry" for x in ast.walk(m.node)):
+            runs_hooks.add(m.name)
+    runs_hooks.discard("clone")
+    ck.floor("C01.15", len(runs_hooks), 1, "methods that run the registered hooks")
+    for c in copies:
+        cn = cfg.node_of(c)
+        after = cfg.reachable_from(cn) - {cn.id}
+        late: List[ast.AST] = []
+        for n in cfg.live_nodes():
+            if n.id not in after or n.ast is None:
+                continue
+            for x in n.walk():
+                if isinstance(x, ast.Call):
+                    f = x.func
+                    if isinstance(f, ast.Attribute) and isinstance(f.value, ast.Name) and f.value.id in new_names and f.attr in runs_hooks:
+                        late.append(x)
+        ck.ob("C01.15", fn, late[0] if late else c, not late, "no hook runs on the new agent after the parent's attributes were copied onto it",
+              detail=f"`{short(late[0], 70)}` runs after copy_attributes: what it initialises replaces the values just copied from the parent" if late else "",
+              construct="EvolvableAlgorithm.clone: hooks on the new agent after copy_attributes")
 
 
 # ------------------------------------------------------------------------------------------------ C01.10
